@@ -8,6 +8,9 @@ from ..compare import judge_strict
 
 ID = "C13"
 LEVEL = "fault_enumeration"
+MIX = True  # a share of the decodes goes through the other front ends and byte sources (context.py)
+HISTORY = True  # every second shard first runs a prelude of earlier library use (history.py)
+OLANE = True  # two more shards run in an interpreter started with -O (runner.start_olane)
 RULE = (
     "all strict-mode rejections produced by the size-field perturbations of C03 and the value faults of C04 on hypothesis-generated "
     "messages - the fault at every position including the final field and the final byte - each with and without trailing bytes, plus "
